@@ -67,6 +67,7 @@ func (e *Expr) String() string {
 }
 
 type Clause struct {
+	LemmaIdx int // 1-based index among the lemmas (0: not a lemma); a lemma's proof may use earlier lemmas only
 	Kind  string // requires ensures invariant decreases bound assert
 	Label string
 	Tags  []string
@@ -365,6 +366,7 @@ func (sp *Spec) ReadSpecFile(path, defaultPkg string) error {
 				sp.Axioms = append(sp.Axioms, c)
 			} else {
 				sp.Lemmas = append(sp.Lemmas, c)
+				c.LemmaIdx = len(sp.Lemmas)
 			}
 		case "smt":
 			sp.RawSMT = append(sp.RawSMT, rc.rest)
